@@ -6,7 +6,8 @@ CFGS = [{"partitions": 1}, {"partitions": 3, "batch_size": 2, "_chunk": 2, "thre
         {"partitions": 8, "threads": 8}, {"partitions": 2, "batch_size": 3, "_chunk": 3},
         {"partitions": 3, "threads": 4, "_style": {"split_inserts": True, "longtext": True}},
         {"partitions": 2, "_style": {"split_inserts": True, "longtext": True}, "det": {"fallback": "rand", "seed": 5, "maxk": 0}},
-        {"partitions": 4, "batch_size": 2, "_chunk": 2, "det": {"fallback": "rand", "seed": 11, "maxk": 2}}]
+        {"partitions": 4, "batch_size": 2, "_chunk": 2, "det": {"fallback": "rand", "seed": 11, "maxk": 2}},
+        {"partitions": 2, "_style": {"split_inserts": True, "nultext": True}}, {"partitions": 1, "_style": {"nultext": True}}]
 
 
 def big_inputs(run_, queries, rng):
